@@ -54,14 +54,14 @@ type dsys struct {
 	universe []string // allocatable addresses as CIDR strings, ascending
 	// acked: allocations the node confirmed to its caller (Allocate returned the address after a
 	// successful store write) and that nobody released/overwrote since. They must survive any stop.
-	acked  map[string]string
-	fill   []string // filler subscribers allocated by the scripted prefix
+	acked map[string]string
+	fill  []string // filler subscribers allocated by the scripted prefix
 	// conflicted: subscribers whose replicated record could not be applied because the address it names was held
 	// here by another subscriber (remote put refused, or record lost to a competing record at restart). They are
 	// outside the agreement clause until memory and store agree on them again.
 	conflicted map[string]bool
-	lastOp string
-	viols  []explore.Viol
+	lastOp     string
+	viols      []explore.Viol
 }
 
 var theT *testing.T
@@ -527,6 +527,11 @@ func (s *dsys) Apply(op string) (obs string) {
 			}
 		}
 	}
+	for sub := range s.conflicted {
+		if s.agree(sub) {
+			delete(s.conflicted, sub) // memory and store agree on it again: back under the agreement clause
+		}
+	}
 	// R3: a failed store call leaves memory and store in agreement
 	if kind := s.st.takeFired(); kind != "" && frame != "" {
 		if agreeBefore[frame] && !s.agree(frame) {
@@ -633,7 +638,7 @@ func (s *dsys) checkRestart(perm int) {
 
 func (s *dsys) Fingerprint() string {
 	return deepdump.Dump(s.da, deepdump.Options{IgnoreTimes: true, SkipTypes: map[string]bool{"c12.fstore": true}}) +
-		"|" + s.st.canon() + fmt.Sprintf("|down=%v f=%d r=%d rem=%d acked=%v", s.down, s.faults, s.restarts, s.remotes, s.acked)
+		"|" + s.st.canon() + fmt.Sprintf("|down=%v f=%d r=%d rem=%d acked=%v conflicted=%v", s.down, s.faults, s.restarts, s.remotes, s.acked, s.conflicted)
 }
 
 // Check: R2 uniqueness + forward/reverse agreement in every state of a running node.
@@ -669,6 +674,18 @@ func (s *dsys) Check() []explore.Viol {
 			_, n, _ := net.ParseCIDR(a)
 			if r, ok := s.da.GetByPrefix(n); ok && r != "" && m[r] != a {
 				s.v("R2-reverse", "GetByPrefix", "GetByPrefix(%s) = %s but Get(%s) = %q", a, r, r, m[r])
+			}
+		}
+		// R1/R4 agreement, session mode, every state of a running node: a restart installs the store's content, so a
+		// subscriber recorded in the store keeps its address across a stop at this point only if the node maps it to the
+		// recorded address NOW. Exempt: records that could not be applied because of a conflict (see conflicted), and
+		// lease mode (expiry and known finding C12-K1 make memory and store differ by design there).
+		if !s.lease() && !s.st.isDead() {
+			for _, sub := range subs {
+				rec, _, ok := s.st.record(recKey(sub))
+				if ok && m[sub] != rec && !s.conflicted[sub] {
+					s.v("R1-agreement-drift", opSiteOf(s.lastOp), "after [%s] the store records %s=%s but the running node maps %s to %q: a stop at this point changes the subscriber's address", s.lastOp, sub, rec, sub, m[sub])
+				}
 			}
 		}
 	}
